@@ -119,7 +119,9 @@ pub fn exec(rec: &Value, _st: &mut State) -> Value {
                     use engeom::metrology::Measurement;
                     let dv = mesh.measure_point_deviation(&p, engeom::common::DistMode::ToPoint);
                     let v = 2.0 * dv.value() / s;
-                    json!({"dq2": q.q(v * v, 64.0), "a": d2q(&mut q, &dv.a)})
+                    // ToPlane: the value is a projection, but the reference point is still the closest point of the mesh
+                    let dp = mesh.measure_point_deviation(&p, engeom::common::DistMode::ToPlane);
+                    json!({"dq2": q.q(v * v, 64.0), "a": d2q(&mut q, &dv.a), "apl": d2q(&mut q, &dp.a)})
                 };
                 let mut qn = Q::new();
                 outs.push(json!({
